@@ -2,12 +2,13 @@ import RzilVerif.Model.DriverText
 import RzilVerif.Lemmas.LayoutPerm
 import RzilVerif.Lemmas.LayoutDup
 import RzilVerif.Lemmas.LayoutPermGen
+import RzilVerif.Lemmas.LayoutDead
 /-
   Driver request that relates the two output layouts of one behaviour (C16):
 
     (layout-rel "<READ_STATEMENTS text>" "<EXEC_CLASSES text>")
       ↦ (layout-rel (wf <0|1>) (hoist-equal <0|1>) (wf-dup <0|1>) (hoist-equal-dup <0|1>)
-                     (perm-equal-dup <0|1>))
+                     (perm-equal-dup <0|1>) (perm-equal-dead <0|1>))
       ↦ (layout-rel (error unparsed-rs)) / (layout-rel (error unparsed-ec))   when a text does not parse
 
   `wf`          : `LayoutWF` (Lemmas/LayoutPerm.lean) of the READ_STATEMENTS items — the hypothesis of
@@ -23,6 +24,10 @@ import RzilVerif.Lemmas.LayoutPermGen
                       declarations of RS pairwise distinct, no forward reference in RS, none in EC, the inlined
                       declarations of EC are a permutation of those of RS, same returned term.
   When it is 1, `layout_rel_sound_perm` (Props/C16.lean) gives `denoteIL` equality of the two texts (no other field needed).
+  `perm-equal-dead` : `permEqualDD` (Lemmas/LayoutDead.lean) = `perm-equal-dup` of the two item lists after `dropDeadDecls`
+                      (every inlined declaration that no remaining later inlined right-hand side / returned term mentions
+                      is removed, in either list).  When it is 1, `layout_rel_sound_dead` (Props/C16.lean) gives
+                      `denoteIL` equality of the two texts as written (no other field needed).
 -/
 namespace Rzil
 open Sexp
@@ -38,7 +43,8 @@ def handleLayout : List Sexp → Option Sexp
         .list [.atom "hoist-equal", ofBool (hoistEqual rs.items ec.items)],
         .list [.atom "wf-dup", ofBool (LayoutWF (rs.items.map Item.eraseDup))],
         .list [.atom "hoist-equal-dup", ofBool (hoistEqualD rs.items ec.items)],
-        .list [.atom "perm-equal-dup", ofBool (permEqualD rs.items ec.items)]])
+        .list [.atom "perm-equal-dup", ofBool (permEqualD rs.items ec.items)],
+        .list [.atom "perm-equal-dead", ofBool (permEqualDD rs.items ec.items)]])
   | _ => none
 
 end Rzil
